@@ -4,7 +4,9 @@
    mapproxy/script/defrag.py (defrag_compact_cache), written from the code line by line.  A file is a `bfile` (defined below: length, initial content function, finite map of overwritten bytes -
    the write log of DESIGN.md section 3 in a form that vm_compute reads in logarithmic time); `bwrite f off d` is
    `seek(off); write(d)`.  Bytes.v supplies le/unle/zlen/rres.
-   Definitions only; all proofs are in Bundle_proofs.v.
+   Definitions only; all proofs are in Bundle_proofs.v.  The index-entry arithmetic (v2 decode/encode, the byte
+   counts of the v1 entries) is NOT written here: it comes from gen/Gen_compact_fmt.v, generated from the Python
+   source by translator/specs/compact_fmt.py; slot arithmetic and bundle keys come from gen/Gen_compact.v.
 
    Conventions
    * a slot is the bundle-relative (x, y) = (tile x mod 128, tile y mod 128);
@@ -14,7 +16,7 @@
    * the dead branch `if offset == 0` of BundleDataV1.append_tile (empty .bundle file) is modelled too. *)
 From Coq Require Import ZArith List Bool FMapPositive.
 Import ListNotations.
-From MP Require Import Base Bytes Gen_compact.
+From MP Require Import Base Bytes Gen_compact Gen_compact_fmt.
 Local Open Scope Z_scope.
 
 Definition slot := (Z * Z)%type.
@@ -176,11 +178,11 @@ Definition v2_idx (s : slot) : Z := v2_tile_idx_offset (fst s) (snd s).
 
 (* _tile_offset_size *)
 Definition v2_tile_offset_size (f : bfile) (s : slot) : option (Z * Z) :=
-  match brdnum f (v2_idx s) 8 with
+  match brdnum f (v2_idx s) v2_entry_bytes with
   | None => None
   | Some val =>
-      let size := Z.shiftr val 40 in
-      if size =? 0 then Some (0, 0) else Some (val - Z.shiftl size 40, size)
+      let size := v2_entry_size val in                  (* generated: val >> 40 *)
+      if size =? 0 then Some (0, 0) else Some (v2_entry_offset val, size)   (* generated: val - (size << 40) *)
   end.
 
 (* _load_tile *)
@@ -205,7 +207,7 @@ Definition v2_store1 (f : bfile) (s : slot) (data : list Z) : option bfile :=
   let f1 := bwrite f e (le 4 size) in
   let offset := e + 4 in
   let f2 := bwrite f1 offset data in
-  let val := offset + Z.shiftl size 40 in
+  let val := v2_entry_encode offset size in              (* generated: offset + (size << 40) *)
   if two64 <=? val then None else                        (* INT64LE.pack(val) *)
   let f3 := bwrite f2 (v2_idx s) (le 8 val) in
   let filesize := offset + size in
@@ -217,7 +219,7 @@ Definition v2_store1 (f : bfile) (s : slot) (data : list Z) : option bfile :=
   end.
 
 (* remove_tile: _update_tile_offset(fh, x, y, 0, 0) *)
-Definition v2_remove1 (f : bfile) (s : slot) : bfile := bwrite f (v2_idx s) (le 8 0).
+Definition v2_remove1 (f : bfile) (s : slot) : bfile := bwrite f (v2_idx s) (le 8 (v2_entry_encode 0 0)).
 
 (* size() *)
 Definition v2_size (f : bfile) : option (Z * Z) :=
@@ -306,7 +308,7 @@ Definition v1_init (c r : Z) : v1st := (v1_init_idx, v1_init_dat c r).
 Definition v1_ioff (s : slot) : Z := v1_tile_index_offset (fst s) (snd s).
 
 (* BundleIndexV1.tile_offset: INT64LE.unpack(read(5) + 3 zero bytes) *)
-Definition v1_tile_offset (idx : bfile) (s : slot) : option Z := brdnum idx (v1_ioff s) 5.
+Definition v1_tile_offset (idx : bfile) (s : slot) : option Z := brdnum idx (v1_ioff s) v1_entry_bytes.
 
 (* BundleV1.load_tiles for one tile *)
 Definition v1_load (st : v1st) (s : slot) : rres :=
@@ -352,7 +354,7 @@ Definition v1_store1 (st : v1st) (s : slot) (data : list Z) : option v1st :=
               | None => None
               | Some hb =>
                   let dat3 := bwrite dat2 0 hb in
-                  Some (bwrite idx (v1_ioff s) (le 5 offset), dat3)
+                  Some (bwrite idx (v1_ioff s) (le v1_entry_write_bytes offset), dat3)
               end
           | _ => None
           end
@@ -361,7 +363,7 @@ Definition v1_store1 (st : v1st) (s : slot) (data : list Z) : option v1st :=
 
 (* BundleV1.remove_tile *)
 Definition v1_remove1 (st : v1st) (s : slot) : v1st :=
-  (bwrite (fst st) (v1_ioff s) [0; 0; 0; 0; 0], snd st).
+  (bwrite (fst st) (v1_ioff s) (repeat 0 v1_entry_remove_bytes), snd st).
 
 (* BundleV1.is_cached *)
 Definition v1_is_cached (st : v1st) (s : slot) : option bool :=
@@ -650,5 +652,79 @@ Definition v1_case_ok (c : v1_case) : bool :=
   let st := v1c_run ops in
   c_obs_ok v1st v1_obs (v1_observe probes) v1_obs_eqb (v1_skip pn pd mb) st before &&
   c_obs_ok v1st v1_obs (v1_observe probes) v1_obs_eqb (fun _ _ => true)
+           (match st with None => None | Some c => v1c_defrag (v1_skip pn pd mb) c end)
+           after.
+
+(* ------------------------------------------------------------------------------------------------ *)
+(* Correspondence only: bundles that have grown large.  A long history of overwrites is stood in for by a   *)
+(* sparse hole: the harness extends the real .bundle with os.truncate(n) and writes n into the header       *)
+(* file-size field (offset 24, 8 bytes, both formats) as _update_metadata / append_tile would have.         *)
+
+Definition bextend (f : bfile) (n : Z) : bfile :=
+  mkB (Z.max (blen f) n) (fun i => if i <? blen f then binit f i else 0) (bover f).
+Definition v2_sparse (f : bfile) (n : Z) : bfile := bwrite (bextend f n) 24 (le 8 n).
+Definition v1_sparse (st : v1st) (n : Z) : v1st := (fst st, bwrite (bextend (snd st) n) 24 (le 8 n)).
+
+Inductive xop := XOp (op : cop) | XSparse (k : bkey) (n : Z).
+
+Section XRun.
+  Variable St : Type.
+  Variable store1 : St -> slot -> list Z -> option St.
+  Variable remove1 : St -> slot -> St.
+  Variable fresh : bkey -> St.
+  Variable sparse : St -> Z -> St.
+  Definition x_step (o : option (list (bkey * St))) (op : xop) : option (list (bkey * St)) :=
+    match op with
+    | XOp op => c_step St store1 remove1 fresh o op
+    | XSparse k n => match o with
+                     | None => None
+                     | Some c => match c_find c k with
+                                 | None => None
+                                 | Some st => Some (c_set c k (sparse st n))
+                                 end
+                     end
+    end.
+  Definition x_run (ops : list xop) : option (list (bkey * St)) := fold_left x_step ops (Some []).
+End XRun.
+
+(* observations that never look at the whole file: lengths, header(s), raw index entries and load results of the
+   probe slots, size() *)
+Definition v2_sobs := (Z * list Z * list Z * list rres * option (Z * Z))%type.
+Definition v2_sobserve (probes : list slot) (f : bfile) : v2_sobs :=
+  (blen f, bread f 0 64, map (fun s => brd f (v2_idx s) 8) probes, map (v2_load f) probes, v2_size f).
+Definition v2_sobs_eqb (a b : v2_sobs) : bool :=
+  let '(l1, h1, e1, r1, s1) := a in
+  let '(l2, h2, e2, r2, s2) := b in
+  (l1 =? l2) && zl_eqb h1 h2 && zl_eqb e1 e2 && list_eqb rres_eqb r1 r2 && size_eqb s1 s2.
+
+Definition v1_sobs := (Z * list Z * list Z * Z * list Z * list Z * list rres * option (Z * Z))%type.
+Definition v1_sobserve (probes : list slot) (st : v1st) : v1_sobs :=
+  let '(idx, dat) := st in
+  (blen idx, bread idx 0 16 ++ bread idx (16 + 16384 * 5) 16, map (fun s => brd idx (v1_ioff s) 5) probes,
+   blen dat, bread dat 0 60, map (fun s => brd dat (60 + 4 * (fst s * 128 + snd s)) 4) probes,
+   map (v1_load st) probes, v1_size st).
+Definition v1_sobs_eqb (a b : v1_sobs) : bool :=
+  let '(l1, h1, e1, m1, g1, z1, r1, s1) := a in
+  let '(l2, h2, e2, m2, g2, z2, r2, s2) := b in
+  (l1 =? l2) && zl_eqb h1 h2 && zl_eqb e1 e2 && (m1 =? m2) && zl_eqb g1 g2 && zl_eqb z1 z2
+  && list_eqb rres_eqb r1 r2 && size_eqb s1 s2.
+
+Definition v2_scase := (list xop * list slot * (Z * Z * Z) *
+                        option (list (bkey * v2_sobs * bool)) * option (list (bkey * v2_sobs * bool)))%type.
+Definition v2_scase_ok (c : v2_scase) : bool :=
+  let '(ops, probes, (pn, pd, mb), before, after) := c in
+  let st := x_run bfile v2_store1 v2_remove1 (fun _ => v2_init) v2_sparse ops in
+  c_obs_ok bfile v2_sobs (v2_sobserve probes) v2_sobs_eqb (v2_skip pn pd mb) st before &&
+  c_obs_ok bfile v2_sobs (v2_sobserve probes) v2_sobs_eqb (fun _ _ => true)
+           (match st with None => None | Some c => v2c_defrag (v2_skip pn pd mb) c end)
+           after.
+
+Definition v1_scase := (list xop * list slot * (Z * Z * Z) *
+                        option (list (bkey * v1_sobs * bool)) * option (list (bkey * v1_sobs * bool)))%type.
+Definition v1_scase_ok (c : v1_scase) : bool :=
+  let '(ops, probes, (pn, pd, mb), before, after) := c in
+  let st := x_run v1st v1_store1 v1_remove1 v1_fresh v1_sparse ops in
+  c_obs_ok v1st v1_sobs (v1_sobserve probes) v1_sobs_eqb (v1_skip pn pd mb) st before &&
+  c_obs_ok v1st v1_sobs (v1_sobserve probes) v1_sobs_eqb (fun _ _ => true)
            (match st with None => None | Some c => v1c_defrag (v1_skip pn pd mb) c end)
            after.
